@@ -106,9 +106,42 @@ class BoolVec:
                 n += 1
         return n
 
+    def any(self):
+        for a in self.items:
+            if a:
+                return True
+        return False
+
+    def all(self):
+        for a in self.items:
+            if not a:
+                return False
+        return True
+
+    def tolist(self):
+        return list(self.items)
+
+    def copy(self):
+        return BoolVec(self.items)
+
+    def astype(self, t, copy=False):
+        return self
+
+    def nonzero(self):
+        return ([i for i, a in enumerate(self.items) if a],)
+
+    def __eq__(self, o):
+        if isinstance(o, BoolVec):
+            return BoolVec([a == b for a, b in zip(self.items, o.items)])
+        return BoolVec([a == o for a in self.items])
+
+    __hash__ = None
+
     @property
     def values(self):
         return self
+
+    dtype = "bool"
 
 
 def _bvitems(o, n):
